@@ -7,11 +7,13 @@ import (
 	"fmt"
 	"io"
 	"net"
+	"time"
 
 	hclog "github.com/hashicorp/go-hclog"
 	plugin "github.com/hashicorp/go-plugin"
 	grpctest "github.com/hashicorp/go-plugin/test/grpc"
 	"google.golang.org/grpc"
+	"google.golang.org/grpc/keepalive"
 
 	"verif/engine/vnet"
 	"verif/engine/vs"
@@ -79,6 +81,7 @@ type grpcPairOpts struct {
 	stderr    io.Reader
 	syncOut   io.Writer
 	syncErr   io.Writer
+	mainAge   time.Duration // the plugin author's GRPCServer constructor sets keepalive MaxConnectionAge on the main server
 }
 
 func nullLogger() hclog.Logger { return hclog.NewNullLogger() }
@@ -104,8 +107,14 @@ func newGRPCPair(x *vs.Exec, o grpcPairOpts) (*grpcPair, error) {
 	if o.stderr == nil {
 		o.stderr = new(bytes.Buffer)
 	}
+	var mkServer func([]grpc.ServerOption) *grpc.Server
+	if o.mainAge > 0 {
+		mkServer = func(opts []grpc.ServerOption) *grpc.Server {
+			return grpc.NewServer(append(opts, grpc.KeepaliveParams(keepalive.ServerParameters{MaxConnectionAge: o.mainAge}))...)
+		}
+	}
 	x.Go("plugin", func() {
-		s, ln, err := plugin.VStartGRPCServer(plugin.VGRPCOpts{Plugins: ps, TLS: o.pluginTLS, Mux: o.mux, Stdout: o.stdout, Stderr: o.stderr, Logger: nullLogger()})
+		s, ln, err := plugin.VStartGRPCServer(plugin.VGRPCOpts{Plugins: ps, TLS: o.pluginTLS, Mux: o.mux, Stdout: o.stdout, Stderr: o.stderr, Logger: nullLogger(), Server: mkServer})
 		if err == nil {
 			p.srv = s
 			lnAddr = ln.Addr()
